@@ -14,7 +14,7 @@ for d in $DEMOS; do mkdir -p $OUT/demo/$(dirname $d); cp -r $d $OUT/demo/$d; don
 cp SEED_REPORT.md $OUT/ 2>/dev/null
 echo "demo files: $DEMOS"
 # scratch verification worktree
-W=/tmp/wt_seedcheck
+W=/tmp/wt_seedcheck_$NAME
 git -C /repo worktree remove --force $W >/dev/null 2>&1
 git -C /repo worktree add -f $W HEAD >/dev/null 2>&1 || exit 3
 cd $W
